@@ -730,6 +730,24 @@ class Gen:
             fn, p = self.proc(i, genv, arrays, name)
             genv.funcs.append(fn)
             procs.append(p)
+        # a pair of procedures that are neighbours in the text: the first ENDS in straight-line code with a system call, the
+        # second BEGINS (no label in between) with a system call that has the same constant in the same actual position;
+        # main calls the second one late, when deeper activations have left their words in the stack
+        pair = None
+        if self.chance(0.18):
+            k = r.choice([0, 0, 0, 0, 1, 255])
+            c1 = r.choice([num(r.randint(33, 90)), ('bin', '+', ('var', 'c'), num(r.randint(0, 9))), ('var', 'c')])
+            pre = [('assign', r.choice([g for g in gvars if g != 'gb']), ('bin', '+', ('var', 'c'), num(r.randint(0, 3))))] if self.chance(0.3) else []
+            pe = {'kind': 'proc', 'name': 'e%d' % nproc, 'formals': [('val', 'c')], 'locals': [],
+                  'body': ('seq', pre + [self.sys(1, [c1, ('num', k)])]) if pre or self.chance(0.5) else self.sys(1, [c1, ('num', k)])}
+            qbody = [self.sys(1, [r.choice([num(r.randint(33, 90)), ('bin', '+', ('var', 'x'), ('num', 48)), ('var', 'x')]), ('num', k)])
+                     for _ in range(r.randint(1, 3))]
+            pq = {'kind': 'proc', 'name': 'q%d' % nproc, 'formals': [('val', 'x')] if self.chance(0.7) else [('val', 'x'), ('val', 'y')], 'locals': [],
+                  'body': ('seq', qbody)}
+            fe = Func(pe['name'], 'proc', [('val', 'c', None)], 'writes', None)
+            fq = Func(pq['name'], 'proc', [(kk, nn, None) for kk, nn in pq['formals']], 'writes', None)
+            genv.funcs += [fe, fq]
+            pair = (pe, pq)
         # main
         env = genv.copy()
         locs = [('var', 'm0'), ('var', 'm1'), ('var', 'c'), ('var', 'c2')]
@@ -748,6 +766,9 @@ class Gen:
         if self.chance(0.3):
             r.shuffle(init)
         body = init + [self.stmt(env, 3, None) for _ in range(r.randint(2, 6))]
+        if pair is not None:
+            body.insert(len(init) + r.randint(0, 1), ('call', pair[0]['name'], [num(r.randint(33, 90))]))
+            body.append(('call', pair[1]['name'], [num(r.randint(0, 9)) for _ in pair[1]['formals']]))
         end = r.random()
         if end < 0.45:
             body.append(self.sys(0, [self.int_expr(env, 3, True, self.chance(0.3))]))
@@ -765,6 +786,9 @@ class Gen:
             procs.append(idx)
         pos = r.choice([0, len(procs), len(procs), r.randint(0, len(procs))])
         procs.insert(pos, main)
+        if pair is not None:
+            pos = r.randint(0, len(procs))
+            procs[pos:pos] = list(pair)
         prog = {'globals': globals_, 'procs': procs, 'style': r.choice([0, 0, 1, 1, 2, 3])}
         prog = self.special_names(prog)
         minlen = min(arrays.values()) if arrays else 10
